@@ -253,6 +253,11 @@ def eval_c01(ins, reals, drv, impl):
     """returns list of violation dicts for the C01 oracle on the real outputs"""
     out = []
     d = drv or {'s': {}, 'd': {}}
+
+    def fin(b):       # the replay material is only built for a failing case
+        b.update({'instance': ins_json(ins), 'replay_input': replay_text(ins),
+                  'how_to_replay': 'write replay_input to a file and run build/bin/c01_vpsc%s-exc-* <file>' % ('_avoid' if impl == 'avoid' else '')})
+        return b
     sf_ops = [k for k, o in enumerate(ins['ops']) if o[0] in 'SF']
     if ins['kind'] == 'S':
         sf_ops = sf_ops[:1]
@@ -260,8 +265,7 @@ def eval_c01(ins, reals, drv, impl):
     for r in reals:
         k = r['op']
         vs, cs = cons_at(ins, k)
-        base = {'impl': impl, 'instance': ins_json(ins), 'op_index': k, 'replay_input': replay_text(ins),
-                'how_to_replay': 'write replay_input to a file and run build/bin/c01_vpsc%s-exc-* <file>' % ('_avoid' if impl == 'avoid' else '')}
+        base = {'impl': impl, 'op_index': k}
         if r['status'] != 'ok':
             if ins['kind'] == 'S' and r['status'] == 'throw_unsatisfied':
                 # the static Solver has no per-constraint flag: throwing UnsatisfiedConstraint from its closing scan IS
@@ -278,14 +282,14 @@ def eval_c01(ins, reals, drv, impl):
                     if cls:
                         base['fingerprint'] = 'static_solver_throws_on_feasible_cycle'
                         base['classifier_detail'] = cls
-                out.append(base)
+                out.append(fin(base))
                 break
             base.update({'what': 'solver threw on a valid instance', 'status': r['status']})
-            out.append(base)
+            out.append(fin(base))
             break
         if not r['finite']:
             base.update({'what': 'non-finite final position', 'positions': r['xf']})
-            out.append(base)
+            out.append(fin(base))
             continue
         flagged = '1' in r['U']
         ineq_only = not any(c[3] for c in cs)
@@ -300,17 +304,17 @@ def eval_c01(ins, reals, drv, impl):
                     worst = (bad, j, float(sl))
             base.update({'what': 'verified sat_or_flagged rejects the real output: an unflagged constraint is violated by more than 1e-6',
                          'positions': r['xf'], 'unsat_flags': r['U'], 'worst_constraint': worst[1], 'its_slack': worst[2]})
-            out.append(base)
+            out.append(fin(base))
             continue
         det = d['d'].get(k)
         if det == 'C' and not flagged:
             base.update({'what': 'system is infeasible (verified positive cycle) but no constraint is flagged unsatisfiable',
                          'positions': r['xf'], 'unsat_flags': r['U']})
-            out.append(base)
+            out.append(fin(base))
         elif det == 'P' and flagged and ineq_only:
             base.update({'what': 'inequality-only system is feasible (verified potentials) but a constraint is flagged unsatisfiable',
                          'positions': r['xf'], 'unsat_flags': r['U']})
-            out.append(base)
+            out.append(fin(base))
     return out
 
 
@@ -621,7 +625,8 @@ def c01_fails(impl):
             return False
         if errs:
             return True       # the harness crashed or hung on this instance
-        return bool(eval_c01(ins, real.get(ins['id'], []), drv.get(ins['id']), impl))
+        # a case that matches a known-finding classifier is not a reproduction of the (plain) failure being minimised
+        return any(not x.get('fingerprint') for x in eval_c01(ins, real.get(ins['id'], []), drv.get(ins['id']), impl))
     return f
 
 
